@@ -9,7 +9,6 @@ import vlib
 import c03gen as G
 
 IMPORTS = ['Gen.Consts', 'Gen.LinkGuards', 'Model.SvgBuild', 'Model.Links', 'Model.LinksChk']
-KNOWN_USE = 'use-expansion-loop'
 
 
 def hbits(*parts):
@@ -27,8 +26,9 @@ def enumerated(ctx, maxlen, sample3=None):
         via = bool(h & 1)
         rot = (h >> 1) % 3
         flags = [bool((h >> (3 + i)) & 1) for i in range(n)]
-        label = "cycle %s %s%s" % ('>'.join(kinds), ','.join(p[0] for p in places), ' via' if via else '')
-        out.append((label, G.cycle_doc(kinds, places, rot, via, flags)))
+        use_entry = bool((h >> 12) & 1)
+        label = "cycle %s %s%s%s" % ('>'.join(kinds), ','.join(p[0] for p in places), ' via' if via else '', ' use-entry' if use_entry else '')
+        out.append((label, G.cycle_doc(kinds, places, rot, via, flags, use_entry)))
     return out
 
 
@@ -52,18 +52,25 @@ def impl_names(res, names):
                                      for n in res['nodes'] if n['t'] in ('path', 'g'))
 
 
-def witness_ok(res):
-    """the independent shape is in the tree with unchanged geometry and paint, and it is painted"""
-    ws = [n for n in res.get('nodes', []) if n.get('id') == 'vf_witness']
-    if len(ws) != 1:
-        return "witness shape missing from the tree" if not ws else "witness shape duplicated"
-    w = ws[0]
-    if w['t'] != 'path' or w['bbox'] != [70.0, 70.0, 20.0, 20.0]:
-        return "witness geometry changed: %s" % w.get('bbox')
-    if w['abs_ts'] != [1.0, 0.0, 0.0, 1.0, 0.0, 0.0]:
-        return "witness transform changed: %s" % w['abs_ts']
-    if w['fill'] != [1, 2, 3] or w['fo'] != 1.0 or w['stroke'] or not w['visible']:
-        return "witness paint changed: fill=%s opacity=%s stroke=%s visible=%s" % (w['fill'], w['fo'], w['stroke'], w['visible'])
+def witness_ok(res, extra=True):
+    """every independent shape is in the tree with unchanged geometry (own box, absolute transform, all absolute /
+    stroke / layer boxes) and paint, and the main one is painted"""
+    expect = {'vf_witness': ([70.0, 70.0, 20.0, 20.0], [1, 2, 3])}
+    if extra:
+        expect.update(G.EXTRA_WITNESSES)
+    for wid, (box, rgb) in expect.items():
+        ws = [n for n in res.get('nodes', []) if n.get('id') == wid]
+        if len(ws) != 1:
+            return "independent shape %s %s" % (wid, "missing from the tree" if not ws else "duplicated")
+        w = ws[0]
+        if w['t'] != 'path' or w['bbox'] != box:
+            return "geometry of %s changed: %s" % (wid, w.get('bbox'))
+        if w['abs_ts'] != [1.0, 0.0, 0.0, 1.0, 0.0, 0.0]:
+            return "absolute transform of %s changed: %s" % (wid, w['abs_ts'])
+        if any(b != box for b in w.get('boxes', [])):
+            return "absolute / stroke / layer bounding boxes of %s changed: %s" % (wid, w.get('boxes'))
+        if w['fill'] != rgb or w['fo'] != 1.0 or w['stroke'] or not w['visible']:
+            return "paint of %s changed: fill=%s opacity=%s stroke=%s visible=%s" % (wid, w['fill'], w['fo'], w['stroke'], w['visible'])
     if res['px'] != [1, 2, 3, 255]:
         return "witness not painted: pixel (80,80) = %s" % res['px']
     return None
@@ -101,10 +108,13 @@ def run(ctx):
     for p in sorted(glob.glob(os.path.join(vlib.VERIF, 'corpus', 'witness', 'F0[12]*.svg'))):
         docs.append(("witness " + os.path.basename(p), None, '@' + p))
     for p in sorted(glob.glob(os.path.join(vlib.VERIF, 'corpus', 'c03', '*.svg'))):
-        docs.append(("witness " + os.path.basename(p), 'file-known-use-loop', '@' + p))
+        docs.append(("witness " + os.path.basename(p), 'file-with-witness', '@' + p))
     for p in sorted(glob.glob(os.path.join(vlib.CORPUS, '**', '*recursive*.svg'), recursive=True)) + \
             sorted(glob.glob(os.path.join(vlib.CORPUS, '**', '*self-recursive*.svg'), recursive=True)):
         docs.append(("corpus " + os.path.relpath(p, vlib.CORPUS), None, '@' + p))
+    import c01gen
+    docs.append(("deep use chain x400", 'file-with-witness', c01gen.hidden_use_chain(400)))
+    docs.append(("deep use chain x2250 (beyond the depth limit)", 'err-allowed', c01gen.hidden_use_chain(2250)))
     n_files = len(docs)
     if quick:
         enum = enumerated(ctx, 3, sample3=(1, 4))          # all cycles of length 1, 2 and a quarter of length 3
@@ -151,7 +161,6 @@ def run(ctx):
         for i, o in zip(s2, o2):
             outs[i] = o
     e2e_bad = 0
-    known_hits = 0
     verdicts = []
     for (label, d, text), o in zip(docs, outs):
         try:
@@ -171,17 +180,15 @@ def run(ctx):
             continue
         if 'error' in r:
             verdicts.append(2)
-            if d == 'file-known-use-loop' or (d is not None and not isinstance(d, str) and G.use_loop(d)):
-                known_hits += 1
-                ctx.known_or_violation(KNOWN_USE, "the whole document is lost (%s) for %s" % (r['error'], label), replay)
-            else:
-                ctx.violation("the whole document is lost (%s) for %s" % (r['error'], label), replay)
-                e2e_bad += 1
+            if d == 'err-allowed' and 'limit' in r['error']:
+                continue            # a genuine depth / size limit, not a loop
+            ctx.violation("the whole document is lost (%s) for %s" % (r['error'], label), replay)
+            e2e_bad += 1
             continue
-        if text.startswith('@'):
+        if (text.startswith('@') or isinstance(d, str)) and d != 'file-with-witness':
             verdicts.append(0)
             continue                    # corpus / witness files have no witness shape: parsing and rendering is the check
-        bad = witness_ok(r)
+        bad = witness_ok(r, extra=not text.startswith('@') and not isinstance(d, str) and not label.startswith('use-family'))
         verdicts.append(1 if bad else 0)
         if bad:
             ctx.violation("%s (%s)" % (bad, label), replay)
@@ -190,7 +197,6 @@ def run(ctx):
             break
     ctx.cov['e2e_cases'] = len(docs)
     ctx.cov['e2e_kinds'] = hist
-    ctx.cov['known_class_hits'] = known_hits
     ctx.add_sample(dict(op='c03-e2e', label=docs[min(n_files, len(docs) - 1)][0], doc=docs[min(n_files, len(docs) - 1)][2]))
     ctx.add_sample(dict(op='c03-e2e', label=docs[-4][0], doc=docs[-4][2]))
 
@@ -223,7 +229,7 @@ def run(ctx):
                     "Eval vm_compute in (bad_idx chk_prepass pre).\n"
                     "Eval vm_compute in (bad_idx chk_names nms).\n"
                     "Eval vm_compute in (bad_idx chk_impl_prepass pre).\n"
-                    "Eval vm_compute in (map (fun p => let v := model_verdict %d%%N (fst p) in (fst v * 2 + (if snd v then 1 else 0))%%N) pre).\n"
+                    "Eval vm_compute in (map (fun p => model_verdict %d%%N (fst p)) pre).\n"
                     % (";\n".join(pre_items[j] for j in ch), ";\n".join(nm_items[j] for j in ch), G.WITNESS_N))
             return ctx.coq_eval('k_c03_%d' % ci, body, IMPORTS, timeout=1200)
         import concurrent.futures as cf
@@ -257,17 +263,15 @@ def run(ctx):
             for i in bad_nm[:3]:
                 ctx.violation("converter: model and implementation disagree on which elements survive (%s)" % docs[i][0],
                               dict(op='c03-e2e', label=docs[i][0], doc=docs[i][2], impl=json.loads(outs[i])))
-            # the model's verdict must agree with the oracle's: tree+witness / tree without / Err, and Err only inside the class
-            for i, v in mverd.items():
-                mv, cls = v // 2, v % 2
+            # the model's verdict: every generated document parses to a tree that contains the witness
+            for i, mv in mverd.items():
                 if mv == 3:
                     ctx.violation("model ran out of fuel on %s" % docs[i][0], dict(doc=docs[i][2], label=docs[i][0]))
-                if mv == 2 and not cls:
-                    ctx.violation("model: document lost outside the known class (%s)" % docs[i][0], dict(doc=docs[i][2], label=docs[i][0]))
-                if cls != (1 if G.use_loop(docs[i][1]) else 0):
-                    ctx.violation("class predicate use_loop: Coq and Python disagree on %s" % docs[i][0],
-                                  dict(doc=docs[i][2], label=docs[i][0]), found_input=False)
-            ctx.cov['model_verdicts'] = dict((str(k), sum(1 for v in mverd.values() if v // 2 == k)) for k in range(4))
+                if mv == 2:
+                    ctx.violation("model: the document is rejected (%s)" % docs[i][0], dict(doc=docs[i][2], label=docs[i][0]))
+                if mv == 1:
+                    ctx.violation("model: the witness shape is lost (%s)" % docs[i][0], dict(doc=docs[i][2], label=docs[i][0]))
+            ctx.cov['model_verdicts'] = dict((str(k), sum(1 for v in mverd.values() if v == k)) for k in range(4))
     else:
         model_ok = False
 
@@ -288,7 +292,7 @@ def run(ctx):
 
 
 def use_family():
-    """use shapes: which ones the guards of parse_svg_use_element catch"""
+    """use shapes around the guards of parse_svg_use_element (all of them parse since fix 1c16806)"""
     E = G.El
     out = []
 
